@@ -164,6 +164,28 @@ fn bank_opt(a: &Value) -> BankConfigOpt {
 
 pub type Built = (Instruction, Vec<Pubkey>);
 
+/// Symbolic error name: MarginfiError variant names for 6000.., "A<code>" for Anchor framework
+/// errors, "panic", "builtin:<..>", "runtime:<..>", "build" otherwise.
+pub fn err_name(code: i64, label: &str) -> String {
+    if (6000..7000).contains(&code) {
+        let m = marginfi::errors::MarginfiError::from(code as u32);
+        if u32::from(m) == code as u32 {
+            return format!("{:?}", m);
+        }
+        return format!("E{}", code);
+    }
+    if code >= 0 && label.starts_with("custom:") {
+        return format!("A{}", code);
+    }
+    if label.starts_with("panic") {
+        return "panic".into();
+    }
+    if label.starts_with("build") {
+        return "build".into();
+    }
+    label.to_string()
+}
+
 impl Exec {
     pub fn new() -> Exec {
         let env = Env::new();
@@ -1419,7 +1441,8 @@ impl Exec {
             Ok(()) => ("ok", 0, String::new(), -1),
             Err((c, l, i)) => ("err", *c, l.clone(), *i),
         };
-        json!({"i": self.n, "ev": op, "a": a, "res": r, "code": code, "label": label, "failed_ix": fidx,
+        let err = if r == "ok" { "".to_string() } else { err_name(code, &label) };
+        json!({"i": self.n, "ev": op, "a": a, "res": r, "code": code, "err": err, "label": label, "failed_ix": fidx,
                "ts": big_i(self.env.world.clock.unix_timestamp as i128), "chg": chg})
     }
 
